@@ -39,7 +39,7 @@ ASSUMPTIONS = [
     'row dicts always name the last column (shape is inferred from keys)',
 ]
 ANCHORS = ['Table._to_sparse', 'coo_arrays_to_sparse', 'list_list_to_sparse', 'nparray_to_sparse', 'list_nparray_to_sparse', 'list_sparse_to_sparse', 'list_dict_to_sparse', 'dict_to_sparse', 'Table.from_adjacency', 'parse_uc', '_from_uc', 'errcheck']
-REQUIRED = ['uc_hits_on_seed_reads', 'form_rows_of_mixed_dtype', 'adjacency_ids_starting_with_hash', 'families', 'forms_compared', 'form_dict_unordered',
+REQUIRED = ['form_rows_of_mixed_layout', 'uc_hits_on_seed_reads', 'form_rows_of_mixed_dtype', 'adjacency_ids_starting_with_hash', 'families', 'forms_compared', 'form_dict_unordered',
             'form_triples_with_zeros', 'form_bool', 'form_int',
             'adjacency_cases', 'uc_cases', 'uc_cli_cases',
             'malformed_duplicate_id', 'malformed_id_count',
@@ -96,6 +96,16 @@ def forms(r, D):
     out['row-dicts'] = rowdicts
     out['sparse-rows'] = lambda: ([sp.csr_matrix(D[i:i + 1, :])
                                    for i in range(n)], {})
+    if n > 1:
+        # the rows of the list need not share a sparse layout (rows cut out
+        # of matrices of different kinds)
+        kinds = [r.choice(['csr', 'csc', 'coo', 'lil', 'dok', 'bsr'])
+                 for _ in range(n)]
+        if len(set(kinds)) == 1:
+            kinds[-1] = 'csc' if kinds[0] != 'csc' else 'coo'
+        out['sparse-rows-mixed-layout'] = lambda: (
+            [getattr(sp, k + '_matrix')(D[i:i + 1, :])
+             for i, k in enumerate(kinds)], {})
     if n == 1 and D.shape[1] > 1:
         # a single observation given as a plain vector
         out['ndarray-1d'] = lambda: (D[0].copy(), {})
@@ -239,6 +249,8 @@ def run_family(ctx, r, index):
             ctx.count('form_int')
         if nm.endswith('mixed-dtype'):
             ctx.count('form_rows_of_mixed_dtype')
+        if nm.endswith('mixed-layout'):
+            ctx.count('form_rows_of_mixed_layout')
     for a, ta in tabs:
         for b, tb in tabs:
             if not (ta == tb) or (ta != tb):
